@@ -1,4 +1,4 @@
-(* Model of x/hard: keeper/{deposit,withdraw,borrow,repay,liquidation,interest,hooks}.go,
+(* Model of x/hard: keeper/{deposit,withdraw,borrow,repay,liquidation,interest,hooks,params}.go,
    types/liquidation.go, abci.go, over an abstract x/bank (plain balances), x/pricefeed
    (current price per denom, 0 = no valid price), x/auction (a started auction = the lot
    leaving the hard module account for the auction module account) and the incentive
@@ -82,7 +82,6 @@ Record market := mkMarket {
 Record env := mkEnv {
   nd : nat;                    (* denoms 0 .. nd-1 *)
   nu : nat;                    (* users 0 .. nu-1; account nu = hard module, nu+1 = auction module *)
-  mm : nat -> option market;   (* money markets (params = store; params do not change in a history) *)
   min_borrow : Z               (* MinimumBorrowUSDValue (Dec) *)
 }.
 Definition hacc (e : env) : nat := nu e.
@@ -101,19 +100,23 @@ Record state := mkState {
   prev : nat -> option Z;      (* previous accrual time (unix seconds) *)
   tsup : coins;                (* total supplied; "found" = non-empty *)
   tbor : coins;                (* total borrowed *)
-  tres : coins                 (* total reserves *)
+  tres : coins;                (* total reserves *)
+  params : nat -> option market;  (* x/params: Params.MoneyMarkets (changed by governance: SetParams) *)
+  mkts : nat -> option market     (* money-market store (MoneyMarketsPrefix); synced from the params by the begin blocker *)
 }.
 
-Definition set_bal s v := mkState v (price s) (dep s) (bor s) (sfac s) (bfac s) (prev s) (tsup s) (tbor s) (tres s).
-Definition set_price s v := mkState (bal s) v (dep s) (bor s) (sfac s) (bfac s) (prev s) (tsup s) (tbor s) (tres s).
-Definition set_dep s v := mkState (bal s) (price s) v (bor s) (sfac s) (bfac s) (prev s) (tsup s) (tbor s) (tres s).
-Definition set_bor s v := mkState (bal s) (price s) (dep s) v (sfac s) (bfac s) (prev s) (tsup s) (tbor s) (tres s).
-Definition set_sfac s v := mkState (bal s) (price s) (dep s) (bor s) v (bfac s) (prev s) (tsup s) (tbor s) (tres s).
-Definition set_bfac s v := mkState (bal s) (price s) (dep s) (bor s) (sfac s) v (prev s) (tsup s) (tbor s) (tres s).
-Definition set_prev s v := mkState (bal s) (price s) (dep s) (bor s) (sfac s) (bfac s) v (tsup s) (tbor s) (tres s).
-Definition set_tsup s v := mkState (bal s) (price s) (dep s) (bor s) (sfac s) (bfac s) (prev s) v (tbor s) (tres s).
-Definition set_tbor s v := mkState (bal s) (price s) (dep s) (bor s) (sfac s) (bfac s) (prev s) (tsup s) v (tres s).
-Definition set_tres s v := mkState (bal s) (price s) (dep s) (bor s) (sfac s) (bfac s) (prev s) (tsup s) (tbor s) v.
+Definition set_bal s v := mkState v (price s) (dep s) (bor s) (sfac s) (bfac s) (prev s) (tsup s) (tbor s) (tres s) (params s) (mkts s).
+Definition set_price s v := mkState (bal s) v (dep s) (bor s) (sfac s) (bfac s) (prev s) (tsup s) (tbor s) (tres s) (params s) (mkts s).
+Definition set_dep s v := mkState (bal s) (price s) v (bor s) (sfac s) (bfac s) (prev s) (tsup s) (tbor s) (tres s) (params s) (mkts s).
+Definition set_bor s v := mkState (bal s) (price s) (dep s) v (sfac s) (bfac s) (prev s) (tsup s) (tbor s) (tres s) (params s) (mkts s).
+Definition set_sfac s v := mkState (bal s) (price s) (dep s) (bor s) v (bfac s) (prev s) (tsup s) (tbor s) (tres s) (params s) (mkts s).
+Definition set_bfac s v := mkState (bal s) (price s) (dep s) (bor s) (sfac s) v (prev s) (tsup s) (tbor s) (tres s) (params s) (mkts s).
+Definition set_prev s v := mkState (bal s) (price s) (dep s) (bor s) (sfac s) (bfac s) v (tsup s) (tbor s) (tres s) (params s) (mkts s).
+Definition set_tsup s v := mkState (bal s) (price s) (dep s) (bor s) (sfac s) (bfac s) (prev s) v (tbor s) (tres s) (params s) (mkts s).
+Definition set_tbor s v := mkState (bal s) (price s) (dep s) (bor s) (sfac s) (bfac s) (prev s) (tsup s) v (tres s) (params s) (mkts s).
+Definition set_tres s v := mkState (bal s) (price s) (dep s) (bor s) (sfac s) (bfac s) (prev s) (tsup s) (tbor s) v (params s) (mkts s).
+Definition set_params s v := mkState (bal s) (price s) (dep s) (bor s) (sfac s) (bfac s) (prev s) (tsup s) (tbor s) (tres s) v (mkts s).
+Definition set_mkts s v := mkState (bal s) (price s) (dep s) (bor s) (sfac s) (bfac s) (prev s) (tsup s) (tbor s) (tres s) (params s) v.
 
 Definition amt_of (o : option urec) : coins := match o with Some r => amt r | None => czero end.
 
@@ -134,7 +137,7 @@ Definition usd (m : market) (p : Z) (a : Z) : Z :=
 
 (* money market and valid price of a denom, as LoadLiquidationData / ValidateBorrow fetch them *)
 Definition mkt (e : env) (s : state) (d : nat) : option (market * Z) :=
-  match mm e d with
+  match mkts s d with
   | Some m => if price s d =? 0 then None else Some (m, price s d)
   | None => None
   end.
@@ -147,15 +150,15 @@ Definition all_priced (e : env) (s : state) (c : coins) : bool :=
 
 Definition usd_d (e : env) (s : state) (d : nat) (a : Z) : Z :=
   match mkt e s d with Some (m, p) => usd m p a | None => 0 end.
-Definition ltv_d (e : env) (d : nat) : Z :=
-  match mm e d with Some m => m_ltv m | None => 0 end.
+Definition ltv_d (s : state) (d : nat) : Z :=
+  match mkts s d with Some m => m_ltv m | None => 0 end.
 
 (* total USD value of coins, each coin valued separately *)
 Definition value_of (e : env) (s : state) (c : coins) : Z :=
   sum_over (denoms (nd e) c) (fun d => usd_d e s d (c d)).
 (* sum over deposit coins of usdValue.Mul(ltv) *)
 Definition borrowable_of (e : env) (s : state) (c : coins) : Z :=
-  sum_over (denoms (nd e) c) (fun d => dec_mul (usd_d e s d (c d)) (ltv_d e d)).
+  sum_over (denoms (nd e) c) (fun d => dec_mul (usd_d e s d (c d)) (ltv_d s d)).
 
 (* liquidation.go IsWithinValidLtvRange: None = error (market or price not found) *)
 Definition within_ltv (e : env) (s : state) (dp bw : coins) : option bool :=
@@ -265,8 +268,8 @@ Definition dec_borrowed (e : env) (s : state) (c : coins) : res state :=
   if cempty (nd e) (tbor s) then Err else ret (set_tbor s (dec_clamp (tbor s) c)).
 
 (** * deposit.go Deposit *)
-Definition init_facs (e : env) (get : nat -> option Z) (cl : list nat) : nat -> option Z :=
-  fold_left (fun f d => match f d, mm e d with
+Definition init_facs (mk : nat -> option market) (get : nat -> option Z) (cl : list nat) : nat -> option Z :=
+  fold_left (fun f d => match f d, mk d with
                         | None, Some _ => upd f d (Some PREC)
                         | _, _ => f end) cl get.
 
@@ -275,10 +278,10 @@ Definition set_idx_found (gf : nat -> option Z) (cl : list nat) (ix : index) : i
 
 Definition deposit (e : env) (s : state) (u : nat) (c : coins) : res state :=
   let cl := denoms (nd e) c in
-  let s := set_sfac s (init_facs e (sfac s) cl) in
+  let s := set_sfac s (init_facs (mkts s) (sfac s) cl) in
   _ <- panic_unless (hook_ok (nd e) (dep s u)) ;;
   s <- sync_supply e s u ;;
-  _ <- err_unless (forallb (fun d => match mm e d with Some _ => true | None => false end) cl) ;;
+  _ <- err_unless (forallb (fun d => match mkts s d with Some _ => true | None => false end) cl) ;;
   s <- bsend (nd e) s u (hacc e) c ;;
   let ix := set_idx_found (sfac s) cl (match dep s u with Some r => idx r | None => [] end) in
   let a := cadd (amt_of (dep s u)) c in
@@ -327,7 +330,7 @@ Definition validate_borrow (e : env) (s : state) (u : nat) (c : coins) : res uni
   _ <- err_unless (negb (negb (cempty (nd e) funds) &&
                          existsb (fun d => (funds d <? c d) && negb (funds d =? 0)) cl)) ;;
   _ <- err_unless (all_priced e s c) ;;
-  _ <- err_unless (forallb (fun d => match mm e d with
+  _ <- err_unless (forallb (fun d => match mkts s d with
                                      | Some m => negb (m_has_max m && (m_max m <? dec_of_int (tbor s d + c d)))
                                      | None => false end) cl) ;;
   let proposed := value_of e s c in
@@ -349,7 +352,7 @@ Definition validate_borrow (e : env) (s : state) (u : nat) (c : coins) : res uni
 
 Definition borrow (e : env) (s : state) (u : nat) (c : coins) : res state :=
   let cl := denoms (nd e) c in
-  let s := set_bfac s (init_facs e (bfac s) cl) in
+  let s := set_bfac s (init_facs (mkts s) (bfac s) cl) in
   _ <- panic_unless (hook_ok (nd e) (dep s u)) ;;
   _ <- panic_unless (hook_ok (nd e) (bor s u)) ;;
   s <- sync_supply e s u ;;
@@ -390,12 +393,12 @@ Definition repay (e : env) (s : state) (sender owner : nat) (c : coins) : res st
 (** * liquidation.go AttemptKeeperLiquidation / SeizeDeposits / StartAuctions *)
 Definition dquo (a b : Z) : res Z := if b =? 0 then Panic else ret (dec_quo a b).
 
-Definition cf_d (e : env) (d : nat) : Z := match mm e d with Some m => m_cf m | None => 0 end.
-Definition keeper_pct (e : env) (d : nat) : Z := match mm e d with Some m => m_keeper m | None => 0 end.
+Definition cf_d (s : state) (d : nat) : Z := match mkts s d with Some m => m_cf m | None => 0 end.
+Definition keeper_pct (s : state) (d : nat) : Z := match mkts s d with Some m => m_keeper m | None => 0 end.
 
 (* KeeperRewardPercentage.MulInt(amount).TruncateInt(), kept when positive *)
-Definition keeper_reward (e : env) (dp : coins) : coins :=
-  fun d => let r := dec_trunc_int (dec_mul_int (keeper_pct e d) (dp d)) in if 0 <? r then r else 0.
+Definition keeper_reward (s : state) (dp : coins) : coins :=
+  fun d => let r := dec_trunc_int (dec_mul_int (keeper_pct s d) (dp d)) in if 0 <? r then r else 0.
 
 Record astate := mkA {
   a_s : state;        (* bank balances, total supplied / borrowed *)
@@ -429,7 +432,7 @@ Definition auction_step (e : env) (ltv : Z) (macc : coins) (bk : nat) (acc : res
   if a_max a <=? dvalue then
     (* an auction for the whole remaining borrow amount *)
     let bid := a_bor a bk in
-    lotsize <- dquo (dec_mul_int (a_max a) (cf_d e dk)) (price (a_s a) dk) ;;
+    lotsize <- dquo (dec_mul_int (a_max a) (cf_d (a_s a) dk)) (price (a_s a) dk) ;;
     let lot := dec_trunc_int lotsize in
     if lot =? 0 then ret a else
     x <- start_auction e a macc bk dk lot bid ;;
@@ -438,7 +441,7 @@ Definition auction_step (e : env) (ltv : Z) (macc : coins) (bk : nat) (acc : res
   else
     (* an auction for part of the borrow amount against the whole deposit of this denom *)
     let maxbid := dec_mul dvalue ltv in
-    bidsize <- dquo (dec_mul_int maxbid (cf_d e bk)) (price (a_s a) bk) ;;
+    bidsize <- dquo (dec_mul_int maxbid (cf_d (a_s a) bk)) (price (a_s a) bk) ;;
     let bid := dec_trunc_int bidsize in
     let lot := a_dep a dk in
     if (bid =? 0) || (lot =? 0) then ret a else
@@ -465,7 +468,7 @@ Definition start_auctions (e : env) (s : state) (b : nat) (bw aucdep dvals bvals
   fold_left (return_step e b (a_dep a)) dkeys (ret (a_s a)).
 
 Definition seize (e : env) (s : state) (k b : nat) (dp bw : coins) : res state :=
-  let reward := keeper_reward e dp in
+  let reward := keeper_reward s dp in
   s <- (if cempty (nd e) reward then ret s
         else s <- dec_supplied e s reward ;; bsend (nd e) s (hacc e) k reward) ;;
   let aucdep := csub dp reward in
@@ -527,7 +530,7 @@ Definition accrue (e : env) (s : state) (d : nat) (t f : Z) : res state :=
     let bf := match bfac s d with Some x => x | None => PREC end in
     let sf := match sfac s d with Some x => x | None => PREC end in
     let s := set_sfac (set_bfac s (upd (bfac s) d (Some bf))) (upd (sfac s) d (Some sf)) in
-    match mm e d with
+    match mkts s d with
     | None => Err
     | Some m =>
       apy <- borrow_rate m (dec_of_int cash) (dec_of_int b) (dec_of_int r) ;;
@@ -551,11 +554,38 @@ Definition accrue (e : env) (s : state) (d : nat) (t f : Z) : res state :=
 
 Definition nthZ (l : list Z) (i : nat) : Z := nth i l 0.
 
-(* ApplyInterestRateUpdates: every money market of the params, in order; an error panics *)
+Definition market_eqb (a b : market) : bool :=      (* MoneyMarket.Equal *)
+  (m_cf a =? m_cf b) && (m_ltv a =? m_ltv b) && Bool.eqb (m_has_max a) (m_has_max b) && (m_max a =? m_max b)
+  && (m_reserve a =? m_reserve b) && (m_keeper a =? m_keeper b)
+  && (m_base a =? m_base b) && (m_mult a =? m_mult b) && (m_kink a =? m_kink b) && (m_jump a =? m_jump b).
+
+(* ApplyInterestRateUpdates, first loop: one money market of the params.  A market missing from
+   the store is added; interest accrues under the stored market; then a changed market is
+   copied from the params into the store. *)
+Definition apply_param_market (e : env) (t : Z) (fs : list Z) (acc : res state) (d : nat) : res state :=
+  s <- acc ;;
+  match params s d with
+  | None => ret s
+  | Some pm =>
+    let old := match mkts s d with Some m => m | None => pm end in
+    let s := match mkts s d with Some _ => s | None => set_mkts s (upd (mkts s) d (Some pm)) end in
+    s <- accrue e s d t (nthZ fs d) ;;
+    ret (if market_eqb old pm then s else set_mkts s (upd (mkts s) d (Some pm)))
+  end.
+
+(* second loop: markets still in the store but removed from the params accrue once more and are
+   deleted from the store *)
+Definition drop_removed_market (e : env) (t : Z) (fs : list Z) (acc : res state) (d : nat) : res state :=
+  s <- acc ;;
+  match mkts s d, params s d with
+  | Some _, None => s <- accrue e s d t (nthZ fs d) ;; ret (set_mkts s (upd (mkts s) d None))
+  | _, _ => ret s
+  end.
+
+(* abci.go BeginBlocker -> ApplyInterestRateUpdates; an error panics *)
 Definition begin_block (e : env) (s : state) (t : Z) (fs : list Z) : res state :=
-  match fold_left (fun acc d => s <- acc ;; accrue e s d t (nthZ fs d))
-                  (filter (fun d => match mm e d with Some _ => true | None => false end) (seq 0 (nd e)))
-                  (ret s) with
+  match fold_left (drop_removed_market e t fs) (seq 0 (nd e))
+          (fold_left (apply_param_market e t fs) (seq 0 (nd e)) (ret s)) with
   | Ok s' _ => ret s'
   | _ => Panic
   end.
@@ -569,7 +599,8 @@ Inductive op :=
 | Liquidate (keeper borrower : nat)
 | SetPrice (d : nat) (p : Z)                 (* pricefeed: new current price *)
 | Donate (u : nat) (d : nat) (x : Z)         (* plain bank transfer user -> hard module account *)
-| BeginBlock (t : Z) (fs : list Z).          (* new block at time t; oracle factors per denom *)
+| BeginBlock (t : Z) (fs : list Z)           (* new block at time t; oracle factors per denom *)
+| SetParams (ps : list (option market)).     (* governance: k.SetParams with new money markets *)
 
 (* Msg*.ValidateBasic: valid, non-empty coins; denoms inside the modelled universe *)
 Definition msg_ok (e : env) (c : list (nat * Z)) : bool :=
@@ -587,6 +618,7 @@ Definition step (e : env) (s : state) (o : op) : res state :=
   | Donate u d x => if Nat.ltb u (nu e) && Nat.ltb d (nd e) && (0 <=? x)
                     then bsend (nd e) s u (hacc e) (csingle d x) else Err
   | BeginBlock t fs => begin_block e s t fs
+  | SetParams ps => ret (set_params s (fun d => nth d ps None))
   end.
 
 Definition step' (e : env) (s : state) (o : op) : state :=
@@ -617,7 +649,8 @@ Record view := mkView {
   v_prev : list (option Z);
   v_tsup : list Z;
   v_tbor : list Z;
-  v_tres : list Z
+  v_tres : list Z;
+  v_mkts : list (option (list Z))   (* the money-market store, read with GetMoneyMarket *)
 }.
 
 Definition vec (n : nat) (c : coins) : list Z := map c (seq 0 n).
@@ -630,6 +663,8 @@ Definition sres_of (n : nat) (o : option (res coins)) : sres :=
   | Some _ => SPanic
   end.
 
+Definition market_vec (m : market) : list Z :=
+  [m_cf m; m_ltv m; (if m_has_max m then 1 else 0); m_max m; m_reserve m; m_keeper m; m_base m; m_mult m; m_kink m; m_jump m].
 Definition project (e : env) (s : state) : view :=
   let us := seq 0 (nu e) in
   let ds := seq 0 (nd e) in
@@ -639,7 +674,8 @@ Definition project (e : env) (s : state) : view :=
          (map (fun u => sres_of (nd e) (synced_deposit e s u)) us)
          (map (fun u => sres_of (nd e) (synced_borrow e s u)) us)
          (map (sfac s) ds) (map (bfac s) ds) (map (prev s) ds)
-         (vec (nd e) (tsup s)) (vec (nd e) (tbor s)) (vec (nd e) (tres s)).
+         (vec (nd e) (tsup s)) (vec (nd e) (tbor s)) (vec (nd e) (tres s))
+         (map (fun d => option_map market_vec (mkts s d)) ds).
 
 (* observation after an operation: result class + the changed entries *)
 Record obs := mkObs {
@@ -654,7 +690,8 @@ Record obs := mkObs {
   o_prev : list (nat * option Z);
   o_tsup : list (nat * Z);
   o_tbor : list (nat * Z);
-  o_tres : list (nat * Z)
+  o_tres : list (nat * Z);
+  o_mkts : list (nat * option (list Z))
 }.
 
 Fixpoint set_nth {A} (l : list A) (i : nat) (v : A) : list A :=
@@ -673,7 +710,8 @@ Definition apply_obs (v : view) (o : obs) : view :=
          (apply_l (v_dep v) (o_dep o)) (apply_l (v_bor v) (o_bor o))
          (apply_l (v_sdep v) (o_sdep o)) (apply_l (v_sbor v) (o_sbor o))
          (apply_l (v_sfac v) (o_sfac o)) (apply_l (v_bfac v) (o_bfac o)) (apply_l (v_prev v) (o_prev o))
-         (apply_l (v_tsup v) (o_tsup o)) (apply_l (v_tbor v) (o_tbor o)) (apply_l (v_tres v) (o_tres o)).
+         (apply_l (v_tsup v) (o_tsup o)) (apply_l (v_tbor v) (o_tbor o)) (apply_l (v_tres v) (o_tres o))
+         (apply_l (v_mkts v) (o_mkts o)).
 
 Fixpoint list_eqb {A} (eqb : A -> A -> bool) (l1 l2 : list A) : bool :=
   match l1, l2 with
@@ -700,7 +738,8 @@ Definition view_eqb (a b : view) : bool :=
   && list_eqb (opt_eqb Z.eqb) (v_sfac a) (v_sfac b) && list_eqb (opt_eqb Z.eqb) (v_bfac a) (v_bfac b)
   && list_eqb (opt_eqb Z.eqb) (v_prev a) (v_prev b)
   && list_eqb Z.eqb (v_tsup a) (v_tsup b) && list_eqb Z.eqb (v_tbor a) (v_tbor b)
-  && list_eqb Z.eqb (v_tres a) (v_tres b).
+  && list_eqb Z.eqb (v_tres a) (v_tres b)
+  && list_eqb (opt_eqb (list_eqb Z.eqb)) (v_mkts a) (v_mkts b).
 
 (* boolean form of the model invariant evaluated on every model state of the
    correspondence run: amounts of records, totals and balances are non-negative, borrow
@@ -747,7 +786,8 @@ Definition normalize (e : env) (s : state) : state :=
           (tab_o (nu e) (fun u => tab_rec (nd e) (dep s u)))
           (tab_o (nu e) (fun u => tab_rec (nd e) (bor s u)))
           (tab_o (nd e) (sfac s)) (tab_o (nd e) (bfac s)) (tab_o (nd e) (prev s))
-          (tab (nd e) (tsup s)) (tab (nd e) (tbor s)) (tab (nd e) (tres s)).
+          (tab (nd e) (tsup s)) (tab (nd e) (tbor s)) (tab (nd e) (tres s))
+          (tab_o (nd e) (params s)) (tab_o (nd e) (mkts s)).
 
 Fixpoint first_mismatch (e : env) (s : state) (sh : view) (h : list (op * obs)) (i : nat) : option nat :=
   match h with
@@ -767,13 +807,13 @@ Fixpoint first_mismatch (e : env) (s : state) (sh : view) (h : list (op * obs)) 
 (* list-based construction of environments and states from harness data *)
 Definition nthO {A} (l : list (option A)) (i : nat) : option A := nth i l None.
 
-Definition mk_env (n_d n_u : nat) (mms : list (option market)) (minb : Z) : env :=
-  mkEnv n_d n_u (nthO mms) minb.
+Definition mk_env (n_d n_u : nat) (minb : Z) : env := mkEnv n_d n_u minb.
 
-Definition mk_state (bals : list (list Z)) (prices : list Z) (prevs : list (option Z)) : state :=
+Definition mk_state (bals : list (list Z)) (prices : list Z) (prevs : list (option Z))
+    (mms : list (option market)) : state :=
   mkState (fun a d => nthZ (nth a bals []) d) (nthZ prices)
           (fun _ => None) (fun _ => None) (fun _ => None) (fun _ => None) (nthO prevs)
-          czero czero czero.
+          czero czero czero (nthO mms) (nthO mms).
 
 Record history := mkHist {
   h_env : env;
